@@ -98,6 +98,32 @@ var hostileData = []string{
 	"[{\"@id\":\"http://a\",\"@type\":[\"http://ex.org/v#T\"],\"http://ex.org/v#p\":[{\"@id\":\"http://a\"}]}]",
 }
 
+// every source-map field the indexer reads, given every shape a JSON-LD value can take after flattening
+func sourceMapHostile() []string {
+	shapes := []string{`"plain"`, `5`, `true`, `null`, `[]`, `["a","b"]`, `{"@id":"http://ex.org/n/1"}`, `{"@id":"http://nowhere"}`, `[{"@id":"http://ex.org/n/1"},{"@id":"http://ex.org/n/2"}]`,
+		`{"@value":"x","@type":"http://www.w3.org/2001/XMLSchema#anyURI"}`, `{"@value":"x","@language":"en"}`, `{"@list":["http://ex.org/n/1"]}`, `{"@list":[]}`,
+		`[{"@value":"x","@type":"http://t"},"y"]`, `{"@value":5}`, `{"http://p":"blank node"}`}
+	const sm = "http://a.ml/vocabularies/document-source-maps#"
+	const doc = "http://a.ml/vocabularies/document#"
+	target := `{"@id":"http://ex.org/n/1","@type":["http://ex.org/v#T"]},{"@id":"http://ex.org/n/2","@type":["http://ex.org/v#T"],"http://ex.org/v#p0":"x"}`
+	var out []string
+	for _, sh := range shapes {
+		// lexical entry fields
+		out = append(out, `[`+target+`,{"@id":"http://ex.org/sm","@type":["`+sm+`SourceMap"],"`+sm+`lexical":[{"@id":"http://ex.org/l"}]},{"@id":"http://ex.org/l","`+sm+`element":`+sh+`,"`+sm+`value":"[(1,2)-(3,4)]"}]`)
+		out = append(out, `[`+target+`,{"@id":"http://ex.org/sm","@type":["`+sm+`SourceMap"],"`+sm+`lexical":[{"@id":"http://ex.org/l"}]},{"@id":"http://ex.org/l","`+sm+`element":"http://ex.org/n/1","`+sm+`value":`+sh+`}]`)
+		out = append(out, `[`+target+`,{"@id":"http://ex.org/sm","@type":["`+sm+`SourceMap"],"`+sm+`lexical":`+sh+`}]`)
+		// source information fields
+		base := `{"@id":"http://ex.org/sm","@type":["` + sm + `SourceMap"],"` + sm + `lexical":[{"@id":"http://ex.org/l"}]},{"@id":"http://ex.org/l","` + sm + `element":"http://ex.org/n/1","` + sm + `value":"[(1,2)-(3,4)]"}`
+		out = append(out, `[`+target+`,`+base+`,{"@id":"http://ex.org/info","@type":["`+doc+`BaseUnitSourceInformation"],"`+doc+`rootLocation":`+sh+`}]`)
+		out = append(out, `[`+target+`,`+base+`,{"@id":"http://ex.org/info","@type":["`+doc+`BaseUnitSourceInformation"],"`+doc+`rootLocation":"file:///r","`+doc+`additionalLocations":`+sh+`}]`)
+		out = append(out, `[`+target+`,`+base+`,{"@id":"http://ex.org/info","@type":["`+doc+`BaseUnitSourceInformation"],"`+doc+`rootLocation":"file:///r","`+doc+`additionalLocations":[{"@id":"http://ex.org/loc"}]},{"@id":"http://ex.org/loc","`+doc+`location":`+sh+`,"`+doc+`elements":[{"@id":"http://ex.org/n/1"}]}]`)
+		out = append(out, `[`+target+`,`+base+`,{"@id":"http://ex.org/info","@type":["`+doc+`BaseUnitSourceInformation"],"`+doc+`rootLocation":"file:///r","`+doc+`additionalLocations":[{"@id":"http://ex.org/loc"}]},{"@id":"http://ex.org/loc","`+doc+`location":"file:///l","`+doc+`elements":`+sh+`}]`)
+		// ordinary property values of a target node and its @type
+		out = append(out, `[{"@id":"http://ex.org/n/1","@type":["http://ex.org/v#T"],"http://ex.org/v#p0":`+sh+`}]`)
+	}
+	return out
+}
+
 func readFixtures(repo string, max int) (profiles, datas []string) {
 	filepath.Walk(repo+"/test/data", func(path string, info os.FileInfo, err error) error {
 		if err != nil || info.IsDir() || info.Size() > 60000 {
@@ -185,6 +211,11 @@ func genFuzz(g *G, repo string, n int, out io.Writer) {
 	for _, d := range hostileData {
 		emit("hostile-data", okProfile, d)
 		emit("hostile-data", okProfile, d)
+	}
+	for k, d := range sourceMapHostile() {
+		// a profile that reports the target nodes, so locations are looked up
+		_ = k
+		emit("hostile-sourcemap", okProfile, d)
 	}
 	for id < n {
 		p := profiles[g.n(len(profiles))]
